@@ -6,6 +6,11 @@
 #include <photospline/cinter/splinetable.h>
 using namespace es;
 static vf::Harness* H;
+// Uninitialised-scratch bugs hide when two evaluation paths run back to back with the same frame layout: the second finds the
+// first one's values still on the stack. Every call is therefore preceded by overwriting the stack below us with a pattern
+// (NaN-like 0xFF bytes and 0x5A bytes alternately).
+static __attribute__((noinline)) void scrub() { static unsigned n = 0; volatile unsigned char buf[24576]; unsigned char v = (n++ & 1) ? 0xFF : 0x5A; for (size_t i = 0; i < sizeof buf; i++) buf[i] = v; }
+#define SCR(e) (scrub(), (e))
 #ifndef C03_VARIANT
 #define C03_VARIANT "unknown"
 #endif
@@ -101,29 +106,29 @@ static void compare_paths(Table& t, const tg::TableSpec& s, const PtC& p, const 
   for (size_t i = 0; i < nd; i++) masks.push_back(1 << i);
   if (nd > 1) masks.push_back((1 << nd) - 1);
   for (int m : masks) {
-    double a = t.ndsplineeval<Float>(x, c.data(), m);
-    double b = ev.ndsplineeval(x, c.data(), m);
-    double e = ev(x, m);
+    double a = SCR(t.ndsplineeval<Float>(x, c.data(), m));
+    double b = SCR(ev.ndsplineeval(x, c.data(), m));
+    double e = SCR(ev(x, m));
     H->count("evaluations", 3);
     if (!same(a, b)) H->violation("member-vs-evaluator" + kc + (m ? ":derivative" : ":value"), where + vf::fmt(" mask=%d member=%.17g evaluator=%.17g", m, a, b));
     if (!same(a, e)) H->violation("member-vs-evaluator-call-operator" + kc, where + vf::fmt(" mask=%d member=%.17g ev()=%.17g", m, a, e));
     if (sizeof(Float) == 4) {
-      double cw = ndsplineeval(&st, x, c.data(), m);
+      double cw = SCR(ndsplineeval(&st, x, c.data(), m));
       if (!same(a, cw)) H->violation("member-vs-C-wrapper" + kc, where + vf::fmt(" mask=%d member=%.17g C=%.17g", m, a, cw));
-      if (m == 0) { double op = t(x); if (!same(a, op)) H->violation("member-vs-call-operator" + kc, where + vf::fmt(" member=%.17g op()=%.17g", a, op)); }
+      if (m == 0) { double op = SCR(t(x)); if (!same(a, op)) H->violation("member-vs-call-operator" + kc, where + vf::fmt(" member=%.17g op()=%.17g", a, op)); }
     }
   }
   if (nd + 1 <= PHOTOSPLINE_MAXDIM) {
     std::vector<double> g1(nd + 1, -1), g2(nd + 1, -2), g3(nd + 1, -3);
-    t.ndsplineeval_gradient<Float>(x, c.data(), g1.data());
-    ev.ndsplineeval_gradient(x, c.data(), g2.data());
+    scrub(); t.ndsplineeval_gradient<Float>(x, c.data(), g1.data());
+    scrub(); ev.ndsplineeval_gradient(x, c.data(), g2.data());
     H->count("evaluations", 2);
     for (size_t i = 0; i <= nd; i++) if (!same(g1[i], g2[i])) H->violation("gradient-member-vs-evaluator" + kc, where + vf::fmt(" lane=%zu member=%.17g evaluator=%.17g", i, g1[i], g2[i]));
-    double v = t.ndsplineeval<Float>(x, c.data(), 0);
+    double v = SCR(t.ndsplineeval<Float>(x, c.data(), 0));
     if (!same(g1[0], v)) H->violation("gradient-value-lane-vs-value" + kc, where + vf::fmt(" lane0=%.17g value=%.17g", g1[0], v));
     if (!same(g2[0], v)) H->violation("evaluator-gradient-value-lane-vs-value" + kc, where + vf::fmt(" lane0=%.17g value=%.17g", g2[0], v));
     if (sizeof(Float) == 4) {
-      ndsplineeval_gradient(&st, x, c.data(), g3.data());
+      scrub(); ndsplineeval_gradient(&st, x, c.data(), g3.data());
       for (size_t i = 0; i <= nd; i++) if (!same(g1[i], g3[i])) H->violation("gradient-member-vs-C-wrapper" + kc, where + vf::fmt(" lane=%zu", i));
     }
   }
@@ -132,7 +137,7 @@ static void compare_paths(Table& t, const tg::TableSpec& s, const PtC& p, const 
     ders.push_back(std::vector<unsigned>(nd, 0)); ders.push_back(std::vector<unsigned>(nd, 1));
     for (size_t i = 0; i < nd; i++) { std::vector<unsigned> v(nd, 0); v[i] = 2; ders.push_back(v); }
     for (auto& der : ders) {
-      double a = t.ndsplineeval_deriv(x, c.data(), der.data()), b = ev.ndsplineeval_deriv(x, c.data(), der.data()), cw = ndsplineeval_deriv(&st, x, c.data(), der.data());
+      double a = SCR(t.ndsplineeval_deriv(x, c.data(), der.data())), b = SCR(ev.ndsplineeval_deriv(x, c.data(), der.data())), cw = SCR(ndsplineeval_deriv(&st, x, c.data(), der.data()));
       H->count("evaluations", 3);
       if (!same(a, b)) H->violation("deriv-member-vs-evaluator" + kc, where + vf::fmt(" der=%s member=%.17g evaluator=%.17g", vf::vecstr(der).c_str(), a, b));
       if (!same(a, cw)) H->violation("deriv-member-vs-C-wrapper" + kc, where + vf::fmt(" der=%s", vf::vecstr(der).c_str()));
